@@ -287,7 +287,10 @@ def gen_case(rng, force=None):
     hc = [[k['block1'], k['block2']] for k in rng.sample(cons, rng.randint(1, min(3, len(cons))))] if (cons and has(0.4)) else []
     hg = rng.sample(names, rng.randint(1, min(3, len(names)))) if (names and has(0.3)) else []
     if not infile:
-        hb, hc, hg = [], [], []     # items are resolved against the grid while the main file is read
+        # with the mesh in a file of its own the requests are read before any block exists and are kept as plain names
+        # (short-output items have no such form: they stay with in-file meshes); every other such deck carries them
+        if not has(0.5):
+            hb, hc, hg = [], [], []
     c['history_block'], c['history_connection'], c['history_generator'] = hb, hc, hg
     # incon / indom
     inc = {}
@@ -338,10 +341,13 @@ def gen_case(rng, force=None):
             lst = [x for x in lst if x != 'CONNE']
         if not blocks:
             lst = [x for x in lst if x not in ('ELEME', 'CONNE')]
+        as_true = xp is True and mesh == 'infile'
         xp = lst
         if not xp:
             echo = False
     if force.get('extra_precision') is not None:
         xp, echo = force['extra_precision'], force.get('echo', False)
     c['config'] = {'mesh': mesh, 'extra_precision': xp, 'echo': echo}
+    # how the caller asks for it: by listing the sections, or simply with True (all sections; those without data are not written)
+    c['config']['extra_precision_as_true'] = bool(xp) and locals().get('as_true', False)
     return c
